@@ -13,7 +13,7 @@ pub broadcast proof fn axiom_label_slice_key_model<'a>()
     ensures #[trigger] vstd::std_specs::hash::obeys_key_model::<&'a [Label<'a>]>() {}
 
 /// every recorded suffix position is a valid pointer target (< 2^14, inside the message) that decodes to that suffix
-pub open spec fn refs_ok<'a>(map: Map<&'a [Label<'a>], usize>, m: Seq<u8>) -> bool {
+pub closed spec fn refs_ok<'a>(map: Map<&'a [Label<'a>], usize>, m: Seq<u8>) -> bool {
     forall|k: &'a [Label<'a>]| #[trigger] map.contains_key(k) ==>
         map[k] < m.len() && map[k] < 0x4000 && dec_labels(m, map[k] as int, 0) == Some(labels_view(k@))
 }
@@ -32,11 +32,15 @@ pub open spec fn ref_old<'a>(m0: Seq<u8>, k: &'a [Label<'a>], v: usize) -> bool 
 pub open spec fn ref_pend<'a>(lv: Seq<Seq<u8>>, m0len: int, k: &'a [Label<'a>], v: usize, j: int) -> bool {
     labels_view(k@) == lv.subrange(j, lv.len() as int) && v == m0len + wl(lv.subrange(0, j)) && v < 0x4000
 }
-/// loop invariant of compress_append: entries are either valid in the message as it was at entry, or are suffixes of the
-/// name being written whose bytes are not complete yet ("pending")
-pub open spec fn inv_refs<'a>(map: Map<&'a [Label<'a>], usize>, m0: Seq<u8>, lv: Seq<Seq<u8>>, i: int) -> bool {
+/// buffers that agree everywhere except in the 2-octet window at `a` (an RDLENGTH slot that will be patched later)
+pub closed spec fn agree_out(m: Seq<u8>, mp: Seq<u8>, a: int) -> bool {
+    m.len() == mp.len() && forall|i: int| 0 <= i < m.len() && !(a <= i < a + 2) ==> #[trigger] mp[i] == m[i]
+}
+/// loop invariant of compress_append (independent of the buffer contents): every entry is either an entry of the table
+/// as it was at entry (same value), or a suffix of the name being written whose bytes are not complete yet ("pending")
+pub open spec fn inv_refs<'a>(map: Map<&'a [Label<'a>], usize>, t0: Map<&'a [Label<'a>], usize>, lv: Seq<Seq<u8>>, m0len: int, i: int) -> bool {
     forall|k: &'a [Label<'a>]| #[trigger] map.contains_key(k) ==>
-        ref_old(m0, k, map[k]) || (exists|j: int| 0 <= j < i && #[trigger] ref_pend(lv, m0.len() as int, k, map[k], j))
+        (t0.contains_key(k) && t0[k] == map[k]) || (exists|j: int| 0 <= j < i && #[trigger] ref_pend(lv, m0len, k, map[k], j))
 }
 
 /// all suffix positions decode once the terminator has been written
@@ -103,53 +107,49 @@ pub proof fn lemma_finish_ptr(m0: Seq<u8>, lv: Seq<Seq<u8>>, i: int, p: u16, m1:
     }
 }
 
-pub proof fn lemma_inv_init<'a>(map: Map<&'a [Label<'a>], usize>, m0: Seq<u8>, lv: Seq<Seq<u8>>)
-    requires refs_ok(map, m0)
-    ensures inv_refs(map, m0, lv, 0)
+pub proof fn lemma_inv_init<'a>(map: Map<&'a [Label<'a>], usize>, lv: Seq<Seq<u8>>, m0len: int)
+    ensures inv_refs(map, map, lv, m0len, 0)
 {}
 
 /// loop step in the Vacant arm
-pub proof fn lemma_vacant_step<'a>(map_b: Map<&'a [Label<'a>], usize>, map_a: Map<&'a [Label<'a>], usize>, k0: &'a [Label<'a>], pos: usize, inserted: bool,
-                               m0: Seq<u8>, lv: Seq<Seq<u8>>, i: int, m: Seq<u8>, m2: Seq<u8>)
+pub proof fn lemma_vacant_step<'a>(map_b: Map<&'a [Label<'a>], usize>, map_a: Map<&'a [Label<'a>], usize>, t0: Map<&'a [Label<'a>], usize>,
+                               k0: &'a [Label<'a>], pos: usize, inserted: bool, m0len: int, lv: Seq<Seq<u8>>, i: int)
     requires
-        labels_ok(lv), 0 <= i < lv.len(),
-        inv_refs(map_b, m0, lv, i),
+        0 <= i < lv.len(),
+        inv_refs(map_b, t0, lv, m0len, i),
         !map_b.contains_key(k0),
         labels_view(k0@) == lv.subrange(i, lv.len() as int),
-        pos == m0.len() + wl(lv.subrange(0, i)),
+        pos == m0len + wl(lv.subrange(0, i)),
         inserted ==> pos < 0x4000 && map_a == map_b.insert(k0, pos),
         !inserted ==> map_a == map_b,
-        m == m0 + run(lv.subrange(0, i)),
-        m2 == m + seq![lv[i].len() as u8] + lv[i],
     ensures
-        inv_refs(map_a, m0, lv, i + 1),
-        wl(lv.subrange(0, i + 1)) == wl(lv.subrange(0, i)) + 1 + lv[i].len(),
-        m2 =~= m0 + run(lv.subrange(0, i + 1)),
+        inv_refs(map_a, t0, lv, m0len, i + 1),
 {
-    lemma_run_snoc(lv, i);
     assert forall|k: &'a [Label<'a>]| #[trigger] map_a.contains_key(k) implies
-        ref_old(m0, k, map_a[k]) || (exists|j: int| 0 <= j < i + 1 && #[trigger] ref_pend(lv, m0.len() as int, k, map_a[k], j)) by {
+        (t0.contains_key(k) && t0[k] == map_a[k]) || (exists|j: int| 0 <= j < i + 1 && #[trigger] ref_pend(lv, m0len, k, map_a[k], j)) by {
         if inserted && k == k0 {
-            assert(ref_pend(lv, m0.len() as int, k, map_a[k], i));
+            assert(ref_pend(lv, m0len, k, map_a[k], i));
         } else {
             assert(map_b.contains_key(k) && map_b[k] == map_a[k]);
-            if !ref_old(m0, k, map_a[k]) {
-                let j = choose|j: int| 0 <= j < i && #[trigger] ref_pend(lv, m0.len() as int, k, map_b[k], j);
-                assert(ref_pend(lv, m0.len() as int, k, map_a[k], j));
+            if !(t0.contains_key(k) && t0[k] == map_a[k]) {
+                let j = choose|j: int| 0 <= j < i && #[trigger] ref_pend(lv, m0len, k, map_b[k], j);
+                assert(ref_pend(lv, m0len, k, map_a[k], j));
             }
         }
     }
 }
 
-/// exit through the terminator
-pub proof fn lemma_zero_exit<'a>(map: Map<&'a [Label<'a>], usize>, m0: Seq<u8>, lv: Seq<Seq<u8>>, m1: Seq<u8>)
-    requires labels_ok(lv), wl(lv) <= 254, inv_refs(map, m0, lv, lv.len() as int), m1 == m0 + run(lv) + seq![0u8]
+/// exit through the terminator; m0x is any buffer of the entry length on which the entry table is valid
+pub proof fn lemma_zero_exit<'a>(map: Map<&'a [Label<'a>], usize>, t0: Map<&'a [Label<'a>], usize>, m0x: Seq<u8>, lv: Seq<Seq<u8>>, m1: Seq<u8>)
+    requires labels_ok(lv), wl(lv) <= 254, inv_refs(map, t0, lv, m0x.len() as int, lv.len() as int), refs_ok(t0, m0x),
+             m1 == m0x + run(lv) + seq![0u8]
     ensures
-        dec_labels(m1, m0.len() as int, 0) == Some(lv),
-        inplace_len(m1, m0.len() as int) == m1.len() - m0.len(),
+        dec_labels(m1, m0x.len() as int, 0) == Some(lv),
+        inplace_len(m1, m0x.len() as int) == m1.len() - m0x.len(),
         refs_ok(map, m1),
-        m1.len() == m0.len() + wl(lv) + 1,
+        m1.len() == m0x.len() + wl(lv) + 1,
 {
+    let m0 = m0x;
     let n = lv.len() as int;
     lemma_run_len(lv);
     assert(lv.subrange(0, 0) =~= Seq::<Seq<u8>>::empty());
@@ -158,7 +158,8 @@ pub proof fn lemma_zero_exit<'a>(map: Map<&'a [Label<'a>], usize>, m0: Seq<u8>, 
     assert forall|k: &'a [Label<'a>]| #[trigger] map.contains_key(k) implies
         map[k] < m1.len() && map[k] < 0x4000 && dec_labels(m1, map[k] as int, 0) == Some(labels_view(k@)) by {
         let v = map[k];
-        if ref_old(m0, k, v) {
+        if t0.contains_key(k) && t0[k] == v {
+            assert(ref_old(m0, k, v));
             lemma_append_stable(m0, run(lv) + seq![0u8], v as int, 0);
             assert(m0 + (run(lv) + seq![0u8]) =~= m1);
         } else {
@@ -170,29 +171,31 @@ pub proof fn lemma_zero_exit<'a>(map: Map<&'a [Label<'a>], usize>, m0: Seq<u8>, 
 }
 
 /// exit through a pointer to an existing entry
-pub proof fn lemma_ptr_exit<'a>(map: Map<&'a [Label<'a>], usize>, k0: &'a [Label<'a>], m0: Seq<u8>, lv: Seq<Seq<u8>>, i: int, p: u16, m1: Seq<u8>)
-    requires labels_ok(lv), wl(lv) <= 254, 0 <= i < lv.len(), inv_refs(map, m0, lv, i),
+pub proof fn lemma_ptr_exit<'a>(map: Map<&'a [Label<'a>], usize>, t0: Map<&'a [Label<'a>], usize>, k0: &'a [Label<'a>], m0x: Seq<u8>, lv: Seq<Seq<u8>>, i: int, p: u16, m1: Seq<u8>)
+    requires labels_ok(lv), wl(lv) <= 254, 0 <= i < lv.len(), inv_refs(map, t0, lv, m0x.len() as int, i), refs_ok(t0, m0x),
              map.contains_key(k0), labels_view(k0@) == lv.subrange(i, lv.len() as int),
              p == map[k0] as u16,
-             m1 == m0 + run(lv.subrange(0, i)) + enc16(p | 0xC000u16),
+             m1 == m0x + run(lv.subrange(0, i)) + enc16(p | 0xC000u16),
     ensures
-        dec_labels(m1, m0.len() as int, 0) == Some(lv),
-        inplace_len(m1, m0.len() as int) == m1.len() - m0.len(),
+        dec_labels(m1, m0x.len() as int, 0) == Some(lv),
+        inplace_len(m1, m0x.len() as int) == m1.len() - m0x.len(),
         refs_ok(map, m1),
-        m1.len() == m0.len() + wl(lv.subrange(0, i)) + 2,
-        m1.len() - m0.len() <= wl(lv) + 1,
-        p < 0x4000 && p < m0.len() && dec_labels(m0, p as int, 0) == Some(lv.subrange(i, lv.len() as int)),
+        m1.len() == m0x.len() + wl(lv.subrange(0, i)) + 2,
+        m1.len() - m0x.len() <= wl(lv) + 1,
+        p < 0x4000 && p < m0x.len() && dec_labels(m0x, p as int, 0) == Some(lv.subrange(i, lv.len() as int)),
 {
+    let m0 = m0x;
     let n = lv.len() as int;
     let v0 = map[k0];
     let suf = lv.subrange(i, n);
-    assert(ref_old(m0, k0, v0)) by {
-        if !ref_old(m0, k0, v0) {
+    assert(t0.contains_key(k0) && t0[k0] == v0) by {
+        if !(t0.contains_key(k0) && t0[k0] == v0) {
             let j = choose|j: int| 0 <= j < i && #[trigger] ref_pend(lv, m0.len() as int, k0, v0, j);
             assert(lv.subrange(j, n).len() == n - j);
             assert(suf.len() == n - i);
         }
     }
+    assert(ref_old(m0, k0, v0));
     assert(p == v0);
     lemma_run_len(lv.subrange(0, i));
     assert(lv.subrange(0, 0) =~= Seq::<Seq<u8>>::empty());
@@ -202,7 +205,8 @@ pub proof fn lemma_ptr_exit<'a>(map: Map<&'a [Label<'a>], usize>, k0: &'a [Label
     assert forall|k: &'a [Label<'a>]| #[trigger] map.contains_key(k) implies
         map[k] < m1.len() && map[k] < 0x4000 && dec_labels(m1, map[k] as int, 0) == Some(labels_view(k@)) by {
         let v = map[k];
-        if ref_old(m0, k, v) {
+        if t0.contains_key(k) && t0[k] == v {
+            assert(ref_old(m0, k, v));
             lemma_append_stable(m0, run(lv.subrange(0, i)) + enc16(p | 0xC000u16), v as int, 0);
             assert(m0 + (run(lv.subrange(0, i)) + enc16(p | 0xC000u16)) =~= m1);
         } else {
@@ -213,6 +217,38 @@ pub proof fn lemma_ptr_exit<'a>(map: Map<&'a [Label<'a>], usize>, k0: &'a [Label
             lemma_run_len(lv.subrange(0, i).subrange(j, i));
         }
     }
+}
+pub proof fn lemma_refs_empty<'a>(map: Map<&'a [Label<'a>], usize>, m: Seq<u8>)
+    requires forall|k: &'a [Label<'a>]| !map.contains_key(k)
+    ensures refs_ok(map, m)
+{}
+/// what a valid table entry means (for users outside this module)
+pub proof fn lemma_refs_entry<'a>(map: Map<&'a [Label<'a>], usize>, m: Seq<u8>, k: &'a [Label<'a>])
+    requires refs_ok(map, m), map.contains_key(k)
+    ensures map[k] < m.len(), map[k] < 0x4000, dec_labels(m, map[k] as int, 0) == Some(labels_view(k@))
+{}
+pub proof fn lemma_agree_intro(m: Seq<u8>, mp: Seq<u8>, a: int)
+    requires m.len() == mp.len(), forall|i: int| 0 <= i < m.len() && !(a <= i < a + 2) ==> mp[i] == m[i]
+    ensures agree_out(m, mp, a)
+{}
+pub proof fn lemma_agree_elim(m: Seq<u8>, mp: Seq<u8>, a: int, i: int)
+    requires agree_out(m, mp, a), 0 <= i < m.len(), !(a <= i < a + 2)
+    ensures mp[i] == m[i], m.len() == mp.len()
+{}
+/// prefixes of agreeing buffers agree (window inside the prefix), the rest is identical
+pub proof fn lemma_agree_prefix(m: Seq<u8>, mp: Seq<u8>, a: int, n: int)
+    requires agree_out(m, mp, a), 0 <= a, a + 2 <= n <= m.len()
+    ensures agree_out(m.subrange(0, n), mp.subrange(0, n), a), mp.subrange(n, mp.len() as int) =~= m.subrange(n, m.len() as int), m.len() == mp.len()
+{}
+/// a buffer that agrees with m1 = m0 + x outside a window inside m0 is (its own prefix) + x
+pub proof fn lemma_agree_suffix(m0: Seq<u8>, x: Seq<u8>, mp: Seq<u8>, a: int)
+    requires 0 <= a, a + 2 <= m0.len(), agree_out(m0 + x, mp, a)
+    ensures mp =~= mp.subrange(0, m0.len() as int) + x, agree_out(m0, mp.subrange(0, m0.len() as int), a), mp.len() == m0.len() + x.len(),
+            mp.subrange(0, m0.len() as int).len() == m0.len(),
+{
+    let m1 = m0 + x;
+    assert forall|i: int| m0.len() <= i < m1.len() implies mp[i] == x[i - m0.len()] by { assert(mp[i] == m1[i]); }
+    assert forall|i: int| 0 <= i < m0.len() && !(a <= i < a + 2) implies #[trigger] mp.subrange(0, m0.len() as int)[i] == m0[i] by { assert(mp[i] == m1[i]); }
 }
 }
 """
@@ -248,6 +284,10 @@ def apply(c):
             r is Ok ==> io_buf(final(out)).len() == io_buf(old(out)).len() + inplace_len(io_buf(final(out)), io_buf(old(out)).len() as int), // @C03:compressed-name-decodes
             r is Ok ==> io_buf(final(out)).len() - io_buf(old(out)).len() <= wl(self.lv()) + 1, // @C03:never-longer
             r is Ok ==> io_buf(final(out)).len() > io_buf(old(out)).len(),
+            r is Ok ==> forall|wa: int, mp: Seq<u8>| 0 <= wa && wa + 2 <= io_buf(old(out)).len() && #[trigger] agree_out(io_buf(final(out)), mp, wa)
+                    && refs_ok(old(name_refs)@, mp.subrange(0, io_buf(old(out)).len() as int))
+                ==> refs_ok(final(name_refs)@, mp) && dec_labels(mp, io_buf(old(out)).len() as int, 0) == Some(self.lv())
+                    && mp.len() == io_buf(old(out)).len() + inplace_len(mp, io_buf(old(out)).len() as int), // @C03:insensitive-to-rdlength-patch
             r is Ok ==> ((exists|k: &'a [Label<'a>]| old(name_refs)@.contains_key(k) && k@ == self.lseq()) && self.lseq().len() > 0
                 ==> io_buf(final(out)).len() == io_buf(old(out)).len() + 2), // @C07:repeated-name-is-a-pointer
 """, pre_body="""
@@ -259,7 +299,7 @@ def apply(c):
         proof {
             lemma_labels_view_len(self.labels@);
             assert(lv.subrange(0, 0) =~= Seq::<Seq<u8>>::empty());
-            lemma_inv_init(name_refs@, m0, lv);
+            lemma_inv_init(name_refs@, lv, m0.len() as int);
             assert(io_buf(out).subrange(0, m0.len() as int) =~= m0);
             assert(io_buf(out) =~= m0 + run(lv.subrange(0, 0)));
         }
@@ -272,7 +312,8 @@ def apply(c):
                 at_end(out),
                 io_buf(out) == m0 + run(lv.subrange(0, i as int)),
                 io_buf(out).len() == m0.len() + wl(lv.subrange(0, i as int)),
-                inv_refs(name_refs@, m0, lv, i as int), // @C03:suffix-table-valid,C07:suffix-table-valid
+                inv_refs(name_refs@, refs0, lv, m0.len() as int, i as int), // @C03:suffix-table-valid,C07:suffix-table-valid
+                refs_ok(refs0, m0),
                 i == 0 ==> name_refs@ == refs0,
                 i > 0 ==> !(exists|k: &'a [Label<'a>]| refs0.contains_key(k) && k@ == self.lseq()),
 """, iter_name='vx_it', body_pre="""
@@ -304,7 +345,17 @@ def apply(c):
                     proof {
                         assert(name_refs@ == map_b);
                         assert(io_buf(out) =~= m0 + run(lv.subrange(0, i as int)) + enc16(p | 0xC000u16));
-                        lemma_ptr_exit(map_b, k0, m0, lv, i as int, p, io_buf(out));
+                        lemma_ptr_exit(map_b, refs0, k0, m0, lv, i as int, p, io_buf(out));
+                        // window clause: the same exit argument on every buffer that differs only inside an RDLENGTH slot of m0
+                        assert forall|wa: int, mp: Seq<u8>| 0 <= wa && wa + 2 <= m0.len() && #[trigger] agree_out(io_buf(out), mp, wa) && refs_ok(refs0, mp.subrange(0, m0.len() as int))
+                            implies refs_ok(name_refs@, mp) && dec_labels(mp, m0.len() as int, 0) == Some(lv) && mp.len() == m0.len() + inplace_len(mp, m0.len() as int) by {
+                            let x = run(lv.subrange(0, i as int)) + enc16(p | 0xC000u16);
+                            assert(io_buf(out) =~= m0 + x);
+                            lemma_agree_suffix(m0, x, mp, wa);
+                            let m0x = mp.subrange(0, m0.len() as int);
+                            assert(mp =~= m0x + run(lv.subrange(0, i as int)) + enc16(p | 0xC000u16));
+                            lemma_ptr_exit(map_b, refs0, k0, m0x, lv, i as int, p, mp);
+                        }
                         assert(io_buf(out).subrange(0, m0.len() as int) =~= m0);
                         lemma_split(lv, i as int); lemma_run_len(lv);
                         if i == 0 { assert(lv.subrange(0, 0) =~= Seq::<Seq<u8>>::empty()); }
@@ -349,14 +400,25 @@ def apply(c):
     c.wr(rel, s[:ls] + """            proof {
                 assert(g_pos > 0x3FFF ==> name_refs@ == map_b);
                 assert(g_pos <= 0x3FFF ==> name_refs@ == map_b.insert(g_k0, g_pos));
-                lemma_vacant_step(map_b, name_refs@, g_k0, g_pos, g_pos <= 0x3FFF, m0, lv, i as int, m, io_buf(out));
+                lemma_vacant_step(map_b, name_refs@, refs0, g_k0, g_pos, g_pos <= 0x3FFF, m0.len() as int, lv, i as int);
+                lemma_run_snoc(lv, i as int);
+                assert(io_buf(out) =~= m0 + run(lv.subrange(0, i + 1)));
             }
 """ + s[ls:])
     c.ghost(rel, NAME_IMPL, 'compress_append', "out.write_all(&[0])?;", """
         proof {
             assert(lv.subrange(0, n) =~= lv);
             assert(io_buf(out) =~= m0 + run(lv) + seq![0u8]);
-            lemma_zero_exit(name_refs@, m0, lv, io_buf(out));
+            lemma_zero_exit(name_refs@, refs0, m0, lv, io_buf(out));
+            assert forall|wa: int, mp: Seq<u8>| 0 <= wa && wa + 2 <= m0.len() && #[trigger] agree_out(io_buf(out), mp, wa) && refs_ok(refs0, mp.subrange(0, m0.len() as int))
+                implies refs_ok(name_refs@, mp) && dec_labels(mp, m0.len() as int, 0) == Some(lv) && mp.len() == m0.len() + inplace_len(mp, m0.len() as int) by {
+                let x = run(lv) + seq![0u8];
+                assert(io_buf(out) =~= m0 + x);
+                lemma_agree_suffix(m0, x, mp, wa);
+                let m0x = mp.subrange(0, m0.len() as int);
+                assert(mp =~= m0x + run(lv) + seq![0u8]);
+                lemma_zero_exit(name_refs@, refs0, m0x, lv, mp);
+            }
             assert(io_buf(out).subrange(0, m0.len() as int) =~= m0);
             lemma_run_len(lv);
             if n == 0 { }
